@@ -1,4 +1,4 @@
-import Qfproto.SorterPivot
+import QF.Core.SorterPivot
 /-! Prototype: comparators (Reverse/NullLast tables) → total preorder → lexicographic Less is a strict weak order. -/
 namespace Cmp
 
